@@ -5,7 +5,8 @@ class C12(Check):
     id = "C12"
     prop_file = "theories/Properties/Properties_C12.v"
     theorems = ("C12_exactly_one_sender", "C12_root_has_no_sender", "C12_all_triggered",
-                "C12_children_distinct", "C12_children_in_range")
+                "C12_children_distinct", "C12_children_in_range",
+                "C12_arrival_exactly_once", "C12_arrival_terminates", "C12_stale_recheck_refuted")
     comp = "usertrig"
     extract_file = "theories/Extract/Extract_UserTrig.v"
     extracted = ("usertrig",)
@@ -14,14 +15,23 @@ class C12(Check):
     level_text = ("Theorems for every communicator size n and root: each non-root rank is the destination of exactly one "
                   "notification, the root of none, all ranks are reached, destinations are distinct and in range. The model's "
                   "child formula is tied to the real module by running both on every (n, root, me) up to a bound and on "
-                  "whole-job simulations; full level for the broadcast-tree logic.")
+                  "whole-job simulations; full level for the broadcast-tree logic. Arrival at a process: for every interleaving of the "
+                  "communication thread (public dispatch entry: lookup, delayed-message list under its lock, re-lookup) with the main "
+                  "thread (registration, taskpool_ready, replay of parked messages) and each of the three situations the notification "
+                  "can find, it is handled at most once, only while BUSY, exactly once when both threads are done, and both finish "
+                  "(finite protocol: the reachable set is computed and checked closed by the kernel); tied by running the real entry "
+                  "points under EVERY schedule prefix of length 12 with per-thread step counts compared.")
     level_note = ("Trusted: Coq kernel, extraction, harness stub of send_am; assumes exactly-once message delivery (C14) and no "
-                  "int overflow (2n+2 < 2^31). The delayed-message path of the public dispatch entry is not exercised.")
+                  "int overflow (2n+2 < 2^31). In the arrival cases parsec_taskpool_lookup is replaced by a one-entry table (the real "
+                  "registry is C37's subject); one notification per process (duplicates are excluded by C14 and the tree theorems).")
     technique = "Coq proof (spanning binary tree for every n, root) + differential run of the real module against the extracted model"
     rule = ("'one n root me': exhaustive over all (n, root, me) with n <= NMAX, plus sampled n up to 4096; "
-            "'sys n root': whole-system delivery simulation.  Non-trivial = n >= 2; distinct = distinct case text")
-    trusted = ("harness stubs parsec_ce.send_am with a recorder and calls the module's static dispatch function directly "
-               "(the delayed-message list and the taskpool lookup of the public dispatch entry are not exercised)",)
+            "'sys n root': whole-system delivery simulation; 'arr ini n root me sched': every 0/1 schedule prefix of length 12 "
+            "for ini = 0, 1 (then round-robin), all prefixes of length 3 for ini = 2, plus random long schedules.  "
+            "Non-trivial = n >= 2; distinct = distinct case text")
+    trusted = ("harness stubs parsec_ce.send_am with a recorder; tree cases call the module's static dispatch function directly, "
+               "arrival cases the public entry with parsec_taskpool_lookup / parsec_list_lock / parsec_list_unlock interposed by "
+               "macros (yield, one-entry table) in the harness translation unit",)
     assumptions = ("reliable exactly-once delivery of each active message by the communication engine (C14)",
                    "int arithmetic does not overflow: 2*nb_nodes + 2 < 2^31")
 
@@ -48,20 +58,64 @@ class C12(Check):
         for _ in range(20 if self.tier == "quick" else 200):
             n = r.range(25, 1500)
             out.append("sys %d %d" % (n, r.pick([0, n - 1, r.below(n)])))
+        out += self.arrival_cases(r)
+        return out
+
+    def arrival_cases(self, r):
+        """arrival protocol: each thread has at most 6 steps, so the 0/1 prefixes of length 12 followed by
+        round-robin cover every interleaving without a failed lock attempt and many with some"""
+        out = []
+        for ini in (0, 1):
+            for bits in range(1 << 12):
+                n = r.pick([2, 3, 7, 8, r.range(2, 200)])
+                root = r.below(n)
+                me = r.pick([(root + 1) % n, (root + n - 1) % n, r.below(n)])
+                if me == root:
+                    me = (root + 1) % n
+                out.append("arr %d %d %d %d %s" % (ini, n, root, me, " ".join(str((bits >> k) & 1) for k in range(12))))
+        for bits in range(8):
+            out.append("arr 2 5 3 0 %s" % " ".join(str((bits >> k) & 1) for k in range(3)))
+        for _ in range(300 if self.tier == "quick" else 5000):
+            n = r.range(2, 3000)
+            root = r.below(n)
+            me = (root + r.range(1, n - 1)) % n
+            # long runs of one thread: spins on the list lock, late and early arrivals
+            sched = []
+            while len(sched) < 30:
+                sched += [r.below(2)] * r.range(1, 6)
+            out.append("arr %d %d %d %d %s" % (r.below(3), n, root, me, " ".join(map(str, sched))))
         return out
 
     def nontrivial_key(self, case):
         w = case.split()
-        return case if int(w[1]) >= 2 else None
+        return case if int(w[2 if w[0] == "arr" else 1]) >= 2 else None
 
     def dist(self, cases):
         one = [c for c in cases if c.startswith("one")]
-        return {"one": len(one), "sys": len(cases) - len(one),
+        arr = [c for c in cases if c.startswith("arr")]
+        return {"one": len(one), "sys": len(cases) - len(one) - len(arr), "arr": len(arr),
                 "max_n": max(int(c.split()[1]) for c in cases)}
 
     # --- property oracle on the implementation's observations -------------
     def oracle(self, case, obs):
         w = case.split()
+        if w[0] == "arr":
+            n, root, me = int(w[2]), int(w[3]), int(w[4])
+            f = dict(x.split("=") for x in obs.split(" children:")[0].split() if "=" in x)
+            try:
+                ch = [int(x) for x in obs.split("children:")[1].split()]
+                if f["done"] != "1":
+                    return "the communication thread and the main thread did not both finish (deadlock on the delayed-message list)"
+                if f["cb"] != "1" or f["state"] != "4":
+                    return ("the notification was handled %s times at process %d (n=%d root=%d): parked=%s, taskpool state %s"
+                            % (f["cb"], me, n, root, f["parked"], f["state"]))
+                if f["parked"] != "0" or f["lockfree"] != "1":
+                    return "a notification is left parked (%s) or the delayed-message lock is still held" % f["parked"]
+            except Exception:
+                return "unparsable observation: " + obs[:80]
+            if any(c < 0 or c >= n for c in ch) or len(set(ch)) != len(ch):
+                return "bad notifications forwarded: %s" % ch
+            return None
         if w[0] == "sys":
             n, root = int(w[1]), int(w[2])
             try:
@@ -90,6 +144,8 @@ class C12(Check):
 
     def signature(self, case, obs):
         w = case.split()
+        if w[0] == "arr":
+            return "arr-ini%s" % w[1]
         return "%s-n%s" % (w[0], w[1])
 
     def search_cases(self):
